@@ -351,12 +351,18 @@ def relation_writers(ctx, rep, rule):
             return
         allowed[f.qualname] = why
     # callers of each function (by name resolution)
+    # users of each function: calls resolved by name, and plain references (`h = self._helper; h(x)`)
     callers = {}
     for g in p.funcs.values():
         for n in walk_local(g.node):
             if isinstance(n, ast.Call):
                 for c in callees_by_name(p, g, n):
                     callers.setdefault(c.qualname, set()).add(g.qualname)
+            elif isinstance(n, ast.Attribute) and isinstance(n.ctx, ast.Load):
+                fake = ast.Call(func=n, args=[], keywords=[])
+                for c in callees_by_name(p, g, fake):
+                    if c.name == n.attr:
+                        callers.setdefault(c.qualname, set()).add(g.qualname)
 
     def ok_func(f, seen=()):
         if f.qualname in allowed:
